@@ -25,6 +25,16 @@
 //!                           `50 + 50*instrument + pos % pm`, side Sell iff `pos % 3 == 1` (else Buy) and
 //!                           exchange time `1 + pos*tm` ms. `strat` / `run` are used as with `data`; `run` then
 //!                           prints DIGESTS (`lseen` / `linst` / `lreqs`) instead of id lists
+//!   `tracked t x`           (before `data` / `data_slow` / `longdata`) TRACKED-BUT-NOT-TRADED exchanges: of the `k`
+//!                           instruments of the dataset op that follows, the last `t` (1 <= t <= k) live on `x`
+//!                           (1 <= x <= min(t,2)) further exchanges - U1 = Okx, U2 = Kraken, the r-th tracked
+//!                           instrument on U(1 + r mod x) - for which the backtest gets NO `ExecutionConfig`
+//!                           (`MultiExchangeTxMap` holds `None` for them); `t = k`: the `executions` list is EMPTY.
+//!                           Dataset markers then name their exchange: `R` = the traded exchange (needs t < k),
+//!                           `R1` / `R2` = U1 / U2; in a `longdata` dataset the marker at `pos` belongs to exchange
+//!                           `E[(pos / rp) mod |E|]`, E = [traded (if t < k), U1 .. Ux]. A `strat` that trades a
+//!                           tracked instrument is `bad-op` (harness and both drivers). The dataset is ONE stream:
+//!                           every observation below covers ALL instruments and ALL exchanges' markers
 //!
 //! Observations of `run` (per backtest `b`):
 //!   `seen b ids...`         market stream events processed by b's engine, in order: the id of every Item
@@ -46,6 +56,7 @@
 //!                           event processed (id, instrument, price, side, exchange time; 0 for a marker)
 //!   `linst b j n=.. h=.. px=..`   per instrument: number of Items, rolling hash of their ids, last price held
 //!   `lreqs b t:i:s:q@p ...` the requests of b's strategy (as `reqs`; the spec states them for long datasets)
+//!   `lmark b c0 c1 ..`      (only after `tracked`) disconnect notices processed per exchange: traded, U1, .., Ux
 //!   `alone b 1`             seen/inst/reqs AND the summary (realised PnL per instrument, final balances)
 //!                           and final positions of the concurrent run equal those of b run alone on
 //!                           the same kind of runtime (`0` otherwise, with a `# differs` note)
@@ -115,6 +126,26 @@ use std::sync::{Arc, Mutex};
 use vh::{engine_util::time_ms, *};
 
 const EXCHANGE: ExchangeId = ExchangeId::BinanceSpot;
+/// exchanges whose instruments are tracked but not traded (`tracked t x`): no `ExecutionConfig` is given for them
+const UNTRADED: [ExchangeId; 2] = [ExchangeId::Okx, ExchangeId::Kraken];
+
+/// 0 = the traded exchange, 1.. = `UNTRADED`
+fn exchange_of(no: u8) -> ExchangeId {
+    if no == 0 { EXCHANGE } else { UNTRADED[no as usize - 1] }
+}
+
+fn exchange_no(exchange: ExchangeId) -> u8 {
+    if exchange == EXCHANGE {
+        0
+    } else {
+        1 + UNTRADED.iter().position(|u| *u == exchange).expect("an exchange of the dataset") as u8
+    }
+}
+
+/// exchange number of instrument `j` of `k` when the last `t` instruments live on `x` untraded exchanges
+fn inst_exchange_no(j: usize, k: usize, (t, x): (usize, usize)) -> u8 {
+    if j < k - t { 0 } else { 1 + ((j - (k - t)) % x) as u8 }
+}
 
 // ------------------------------------------------------------------ recording state
 
@@ -123,8 +154,9 @@ const EXCHANGE: ExchangeId = ExchangeId::BinanceSpot;
 enum Rec {
     /// market Item (dataset position)
     M(u32),
-    /// market disconnect notice (`MarketStreamEvent::Reconnecting`), seen by `on_disconnect`
-    R,
+    /// market disconnect notice (`MarketStreamEvent::Reconnecting`), seen by `on_disconnect`, with the
+    /// number of the exchange it names (0 = the traded exchange, 1 / 2 = tracked-only exchanges U1 / U2)
+    R(u8),
     A(String),
 }
 
@@ -444,7 +476,7 @@ impl<Clock, Txs, Risk> OnDisconnectStrategy<Clock, State, Txs, Risk> for PlanStr
         let market = engine.state.connectivity.connectivity(&exchange).market_data
             == barter::engine::state::connectivity::Health::Reconnecting;
         if market {
-            engine.state.global.log.push(Rec::R);
+            engine.state.global.log.push(Rec::R(exchange_no(exchange)));
             engine.state.global.h = mix(engine.state.global.h, 0);
         } else {
             engine.state.global.log.push(Rec::A("acc-reconnecting".into()));
@@ -470,6 +502,8 @@ struct Setup {
     gap_ms: Option<u64>,
     /// `longdata`: observations of `run` are digests
     long: bool,
+    /// `tracked t x`: the last `t` instruments live on `x` exchanges without an execution link ((0, 0): none)
+    tracked: (usize, usize),
 }
 
 /// The data source handed to `backtest()`: the repo's `MarketDataInMemory` (clock from its `new`,
@@ -518,12 +552,13 @@ fn asset_name(j: usize) -> String {
     format!("a{j}")
 }
 
-fn build_instruments(k: usize) -> IndexedInstruments {
+fn build_instruments(k: usize, tracked: (usize, usize)) -> IndexedInstruments {
     let mut builder = IndexedInstruments::builder();
     for j in 0..k {
+        let exchange = exchange_of(inst_exchange_no(j, k, tracked));
         builder = builder.add_instrument(Instrument::spot(
-            EXCHANGE,
-            format!("binance_spot_{}_usdt", asset_name(j)),
+            exchange,
+            format!("{}_{}_usdt", exchange.as_str(), asset_name(j)),
             format!("{}USDT", asset_name(j).to_uppercase()),
             Underlying::new(asset_name(j), "usdt".to_string()),
             None,
@@ -548,12 +583,16 @@ fn args_constant(
     s: &Setup,
 ) -> Arc<BacktestArgsConstant<PacedData, Daily, State>> {
     let balances = initial_balances(&s.instruments);
-    let executions = vec![ExecutionConfig::Mock(MockExecutionConfig {
+    // an execution link (mock exchange) for the traded exchange only: instruments of `UNTRADED` exchanges are tracked,
+    // not traded; when every instrument is tracked the `executions` list is empty
+    let traded = s.instruments.exchanges().iter().any(|e| e.value == EXCHANGE);
+    let executions = if !traded { vec![] } else { vec![ExecutionConfig::Mock(MockExecutionConfig {
         mocked_exchange: EXCHANGE,
         initial_state: UnindexedAccountSnapshot {
             exchange: EXCHANGE,
-            balances: balances
-                .iter()
+            balances: s.instruments.assets().iter().zip(balances.iter())
+                .filter(|(a, _)| a.value.exchange == EXCHANGE)
+                .map(|(_, b)| b)
                 .map(|(name, amount)| AssetBalance {
                     asset: AssetNameExchange::new(name.clone()),
                     balance: Balance::new(*amount, *amount),
@@ -564,7 +603,7 @@ fn args_constant(
         },
         latency_ms: s.latency_ms,
         fees_percent: Decimal::ZERO,
-    })];
+    })] };
     let engine_state = EngineStateBuilder::new(&s.instruments, RecGlobal::default(), RecInstr::default)
         .time_engine_start(time_ms(0))
         .trading_state(TradingState::Enabled)
@@ -658,7 +697,9 @@ fn replay_feed(s: &Setup, sink: &Sink) -> (String, Vec<String>, Vec<String>) {
     let (execution_txs, _rxs): (MultiExchangeTxMap, Vec<_>) = {
         let (tx, rx) = barter_integration::channel::mpsc_unbounded();
         (
-            MultiExchangeTxMap::from_iter([(EXCHANGE, Some(tx))]),
+            MultiExchangeTxMap::from_iter(
+                s.instruments.exchanges().iter().map(|e| (e.value, (e.value == EXCHANGE).then(|| tx.clone()))),
+            ),
             vec![rx],
         )
     };
@@ -673,7 +714,7 @@ fn replay_feed(s: &Setup, sink: &Sink) -> (String, Vec<String>, Vec<String>) {
     for rec in &sink.log {
         let event: EngineEvent<DataKind> = match rec {
             Rec::M(id) => EngineEvent::Market(s.events[*id as usize].clone()),
-            Rec::R => EngineEvent::Market(MarketStreamEvent::Reconnecting(EXCHANGE)),
+            Rec::R(e) => EngineEvent::Market(MarketStreamEvent::Reconnecting(exchange_of(*e))),
             Rec::A(tag) if tag == "acc-reconnecting" => {
                 EngineEvent::Account(AccountStreamEvent::Reconnecting(EXCHANGE))
             }
@@ -706,7 +747,8 @@ fn market_ids(log: &[Rec]) -> Vec<String> {
     log.iter()
         .filter_map(|r| match r {
             Rec::M(i) => Some(i.to_string()),
-            Rec::R => Some("R".to_string()),
+            Rec::R(0) => Some("R".to_string()),
+            Rec::R(e) => Some(format!("R{e}")),
             Rec::A(_) => None,
         })
         .collect()
@@ -728,9 +770,12 @@ fn market_recs(log: &[Rec]) -> Vec<Rec> {
 
 /// One event of a `longdata n k rp ro pm tm` dataset: a function of its position alone (the Lean driver's
 /// `Backtest.genEv` is the same formula).
-fn long_event(pos: usize, k: usize, rp: usize, ro: usize, pm: usize, tm: usize) -> MarketStreamEvent<InstrumentIndex, DataKind> {
+fn long_event(pos: usize, k: usize, rp: usize, ro: usize, pm: usize, tm: usize, tracked: (usize, usize)) -> MarketStreamEvent<InstrumentIndex, DataKind> {
     if rp > 0 && pos % rp == ro {
-        return MarketStreamEvent::Reconnecting(EXCHANGE);
+        // the exchanges of the dataset: the traded one (if it has an instrument), then U1 .. Ux; markers take turns
+        let first = if tracked.0 < k { 0 } else { 1 };
+        let n_exchanges = tracked.1 + 1 - first;
+        return MarketStreamEvent::Reconnecting(exchange_of((first + (pos / rp) % n_exchanges) as u8));
     }
     let inst = (pos + pos / 3) % k;
     let price = 50 + 50 * inst + pos % pm;
@@ -738,7 +783,7 @@ fn long_event(pos: usize, k: usize, rp: usize, ro: usize, pm: usize, tm: usize) 
     MarketStreamEvent::Item(MarketEvent {
         time_exchange: te,
         time_received: te,
-        exchange: EXCHANGE,
+        exchange: exchange_of(inst_exchange_no(inst, k, tracked)),
         instrument: InstrumentIndex(inst),
         kind: DataKind::Trade(PublicTrade {
             id: pos.to_string(),
@@ -759,7 +804,7 @@ fn long_seen_digest(events: &[MarketStreamEvent<InstrumentIndex, DataKind>], log
     for rec in log {
         let tok: Option<usize> = match rec {
             Rec::M(id) => Some(*id as usize),
-            Rec::R => None,
+            Rec::R(_) => None,
             Rec::A(_) => continue,
         };
         // the dataset's element at this index of the stream
@@ -866,22 +911,50 @@ fn run() {
     let verbose = std::env::var("C20_VERBOSE").is_ok();
     run_cases(|case, lines| {
         let mut setup: Option<Setup> = None;
+        let mut tracked: (usize, usize) = (0, 0);
         for op in &case.ops {
             lines.push("@".into());
             match op[0].as_str() {
+                "tracked" => {
+                    setup = None;
+                    let v: Vec<usize> = op[1..].iter().filter_map(|t| t.parse().ok()).collect();
+                    if op.len() != 3 || v.len() != 2 || v[0] < 1 || v[1] < 1 || v[1] > v[0] || v[1] > UNTRADED.len() {
+                        tracked = (0, 0);
+                        lines.push("bad-op".into());
+                        continue;
+                    }
+                    tracked = (v[0], v[1]);
+                    lines.push(format!("tracked {} {}", v[0], v[1]));
+                }
                 "data" | "data_slow" => {
                     let slow = op[0] == "data_slow";
                     let gap_ms: Option<u64> = slow.then(|| op[1].parse().unwrap());
                     let op = if slow { &op[1..] } else { &op[..] };
                     let k: usize = op[1].parse().unwrap();
                     let latency_ms: u64 = 0;
-                    let instruments = build_instruments(k);
+                    // `tracked t x` needs t <= k; a marker must name an exchange of the dataset
+                    let marker_no = |t: &str| -> Option<u8> {
+                        match t {
+                            "R" => Some(0),
+                            "R1" => Some(1),
+                            "R2" => Some(2),
+                            _ => None,
+                        }
+                    };
+                    if tracked.0 > k
+                        || op[2..].iter().filter_map(|t| marker_no(t)).any(|e| if e == 0 { tracked.0 == k && k > 0 } else { e as usize > tracked.1 })
+                    {
+                        setup = None;
+                        lines.push("bad-op".into());
+                        continue;
+                    }
+                    let instruments = build_instruments(k, tracked);
                     let events: Vec<_> = op[2..]
                         .iter()
                         .enumerate()
                         .map(|(pos, t)| {
-                            if t == "R" {
-                                return MarketStreamEvent::Reconnecting(EXCHANGE);
+                            if let Some(e) = marker_no(t) {
+                                return MarketStreamEvent::Reconnecting(exchange_of(e));
                             }
                             // `i:p` (exchange time = position in the dataset) or `i:p@t`: an explicit
                             // exchange time in ms, which need not increase along the dataset (recordings
@@ -937,7 +1010,7 @@ fn run() {
                             MarketStreamEvent::Item(MarketEvent {
                                 time_exchange: te,
                                 time_received: te,
-                                exchange: EXCHANGE,
+                                exchange: exchange_of(inst_exchange_no(i, k, tracked)),
                                 instrument: InstrumentIndex(i),
                                 kind,
                             })
@@ -952,6 +1025,7 @@ fn run() {
                         latency_ms,
                         gap_ms,
                         long: false,
+                        tracked,
                     });
                 }
                 "longdata" => {
@@ -959,21 +1033,35 @@ fn run() {
                     let v: Vec<usize> = op[1..].iter().map(|t| t.parse().expect("number")).collect();
                     let (n, k, rp, ro, pm, tm) = (v[0], v[1], v[2], v[3], v[4], v[5]);
                     assert!(n >= 1 && k >= 1 && pm >= 1 && (rp == 0 || ro < rp), "longdata parameters");
-                    let events: Vec<_> = (0..n).map(|pos| long_event(pos, k, rp, ro, pm, tm)).collect();
+                    if tracked.0 > k {
+                        setup = None;
+                        lines.push("bad-op".into());
+                        continue;
+                    }
+                    let events: Vec<_> = (0..n).map(|pos| long_event(pos, k, rp, ro, pm, tm, tracked)).collect();
                     lines.push(format!("longdata {} {}", k, events.len()));
                     setup = Some(Setup {
-                        instruments: build_instruments(k),
+                        instruments: build_instruments(k, tracked),
                         n_events: events.len(),
                         events: Arc::new(events),
                         plans: vec![],
                         latency_ms: 0,
                         gap_ms: None,
                         long: true,
+                        tracked,
                     });
                 }
                 "strat" => {
                     let s = setup.as_mut().expect("data first");
-                    s.plans.push(parse_plan(&op[1..]));
+                    let plan = parse_plan(&op[1..]);
+                    // a request for an instrument of an exchange without execution link is another error path of the
+                    // engine (not this property): such a plan is refused by harness and drivers alike
+                    let n_traded = s.instruments.instruments().len() - s.tracked.0;
+                    if s.tracked.0 > 0 && plan.iter().any(|item| item.inst >= n_traded) {
+                        lines.push("bad-op".into());
+                        continue;
+                    }
+                    s.plans.push(plan);
                     lines.push(format!("strat {}", s.plans.len() - 1));
                 }
                 // a large parameter sweep: `n` backtests through one `run_backtests` call; observed in
@@ -994,7 +1082,8 @@ fn run() {
                         .enumerate()
                         .map(|(pos, e)| match e {
                             MarketStreamEvent::Item(_) => pos.to_string(),
-                            MarketStreamEvent::Reconnecting(_) => "R".to_string(),
+                            MarketStreamEvent::Reconnecting(e) if *e == EXCHANGE => "R".to_string(),
+                            MarketStreamEvent::Reconnecting(e) => format!("R{}", exchange_no(*e)),
                         })
                         .collect();
                     let all_seen = conc.sinks.iter().all(|k| market_ids(&k.log) == whole);
@@ -1002,7 +1091,11 @@ fn run() {
                 }
                 "run" => {
                     let s = setup.as_ref().expect("data first");
-                    assert!(!s.plans.is_empty(), "strat first");
+                    if s.plans.is_empty() {
+                        // no (accepted) `strat` yet: refused like the drivers do
+                        lines.push("bad-op".into());
+                        continue;
+                    }
                     let n: usize = op[1].parse().unwrap();
                     let w: usize = op[2].parse().unwrap();
                     let bs: Vec<usize> = (0..n).collect();
@@ -1026,6 +1119,13 @@ fn run() {
                                 lines.push(format!("linst {b} {j} n={} h={h} px={}", v.len(), fmt_opt_dec(px)));
                             }
                             lines.push(format!("lreqs {b} {}", sink.reqs.join(" ")));
+                            if s.tracked.0 > 0 {
+                                // disconnect notices per exchange: traded, U1 .. Ux
+                                let counts: Vec<String> = (0..=s.tracked.1 as u8)
+                                    .map(|e| sink.log.iter().filter(|r| **r == Rec::R(e)).count().to_string())
+                                    .collect();
+                                lines.push(format!("lmark {b} {}", counts.join(" ")));
+                            }
                         } else {
                             lines.push(format!("seen {b} {}", market_ids(&sink.log).join(" ")));
                             for (j, v) in sink.inst.iter().enumerate() {
@@ -1339,6 +1439,85 @@ fn gen_long_case(out: &mut Out, rng: &mut Rng, id: &str, n: usize, runs: &[(usiz
     }
 }
 
+/// TRACKED-BUT-NOT-TRADED exchanges (cases `T<n>`: `data` / `data_slow`, `TL<n>`: `longdata`; own PRNG stream): `tracked t x`
+/// puts the last 1-2 of the 2-4 instruments on 1-2 exchanges for which the backtest has NO `ExecutionConfig`; every fifth
+/// case tracks ALL instruments (empty `executions` list, passive strategies only). The dataset mixes Items of traded and
+/// tracked instruments and markers of every exchange (`R`, `R1`, `R2`), always at least one Item of a tracked instrument
+/// and one marker of an untraded exchange; plans trade traded instruments only, their triggers count the Items of ALL
+/// instruments (a signal from an exchange one does not trade on).
+fn gen_tracked_case(out: &mut Out, rng: &mut Rng, id: &str, c: usize, runs: &[(usize, usize)], long_n: Option<usize>) {
+    out.case(id);
+    let all_tracked = c % 5 == 4;
+    let k = if all_tracked { rng.range(1, 3) } else { rng.range(2, 4) } as usize;
+    let t = if all_tracked { k } else { rng.range(1, 2.min(k as i64 - 1)) as usize };
+    let x = rng.range(1, t.min(2) as i64) as usize;
+    out.line(format!("tracked {t} {x}"));
+    let n_items: i64;
+    match long_n {
+        Some(n) => {
+            let (rp, ro) = *rng.pick(&[(7usize, 3usize), (64, 0), (64, 17), (1000, 999), (5, 4)]);
+            let pm = *rng.pick(&[7usize, 13, 97]);
+            let tm = *rng.pick(&[1usize, 3]);
+            out.line(format!("longdata {n} {k} {rp} {ro} {pm} {tm}"));
+            n_items = (0..n).filter(|pos| pos % rp != ro).count() as i64;
+        }
+        None => {
+            let paced = c % 6 == 3;
+            let len = if paced { rng.range(3, 10) } else if c % 3 == 2 { rng.range(200, 600) } else { rng.range(3, 40) } as usize;
+            n_items = len as i64;
+            let mut markers: Vec<String> = (1..=x).map(|e| format!("R{e}")).collect();
+            if t < k {
+                markers.push("R".into());
+            }
+            let forced_item = rng.below(len as u64) as usize;
+            let forced_marker = rng.below(len as u64) as usize;
+            let mut toks: Vec<String> = Vec::new();
+            if rng.chance(40) {
+                toks.push(rng.pick(&markers).clone());
+            }
+            for pos in 0..len {
+                // half of the Items belong to tracked instruments
+                let i = if pos == forced_item || rng.chance(50) { k - 1 - rng.below(t as u64) as usize } else { rng.below(k as u64) as usize };
+                toks.push(format!("{i}:{}", 50 + 50 * i as i64 + rng.range(0, 3)));
+                if pos == forced_marker {
+                    toks.push(format!("R{}", rng.range(1, x as i64)));
+                } else if rng.chance(if len > 100 { 3 } else { 20 }) {
+                    toks.push(rng.pick(&markers).clone());
+                }
+            }
+            if rng.chance(30) {
+                toks.push(rng.pick(&markers).clone());
+            }
+            match paced {
+                false => out.line(format!("data {k} {}", toks.join(" "))),
+                true => out.line(format!("data_slow {} {k} {}", *rng.pick(&[0u64, 100, 3000]), toks.join(" "))),
+            }
+        }
+    }
+    let n_strats = rng.range(1, 3);
+    for s in 0..n_strats {
+        if all_tracked || (s == 0 && rng.chance(40)) {
+            out.line("strat -");
+            continue;
+        }
+        let mut line = String::from("strat");
+        for _ in 0..rng.range(1, 4) {
+            let trigger = match rng.below(4) {
+                0 => 1,
+                1 => n_items,
+                _ => rng.range(1, n_items.max(1)),
+            };
+            let i = rng.below((k - t) as u64);
+            let side = if rng.chance(70) { "B" } else { "S" };
+            line.push_str(&format!(" {trigger}:{i}:{side}:{}", rng.range(1, 3)));
+        }
+        out.line(line);
+    }
+    for (m, w) in runs {
+        out.line(format!("run {m} {w}"));
+    }
+}
+
 fn generate(seed: u64, n_cases: usize, tier: &str) {
     let mut out = Out::new();
     let mut rng = Rng::new(seed);
@@ -1422,6 +1601,27 @@ fn generate(seed: u64, n_cases: usize, tier: &str) {
         for c in 0..n_lx {
             let runs = [(1usize, *xrng.pick(&[0usize, 4])), (xrng.range(2, 3) as usize, *xrng.pick(&[1usize, 4]))];
             gen_long_dom_case(&mut out, &mut xrng, c + (seed as usize % 6) * (!thorough) as usize, &runs);
+        }
+    }
+    // tracked-but-not-traded exchanges (own PRNG stream): short / paced and long datasets, alone and concurrent
+    if n_cases > 0 {
+        let mut trng = Rng::new(seed ^ 0x5452_4b44);
+        let (n_short, n_long) = if thorough { (20, 6) } else { (5, 2) };
+        let start = (seed as usize % 30) * (!thorough) as usize;
+        for c in 0..n_short {
+            let mut runs = vec![
+                (1usize, *trng.pick(&[0usize, 1, 4])),
+                (*trng.pick(&[2usize, 3, 4, 8]), *trng.pick(&[1usize, 4, 8])),
+            ];
+            if trng.chance(30) {
+                runs.push((2, 0));
+            }
+            gen_tracked_case(&mut out, &mut trng, &format!("T{}", c + 1), start + c, &runs, None);
+        }
+        for c in 0..n_long {
+            let n = *trng.pick(&[257usize, 4097, 8193, 20000]);
+            let runs = [(1usize, *trng.pick(&[0usize, 4])), (trng.range(2, 4) as usize, *trng.pick(&[1usize, 4, 8]))];
+            gen_tracked_case(&mut out, &mut trng, &format!("TL{}_{n}", c + 1), start + n_short + c, &runs, Some(n));
         }
     }
     out.flush();
